@@ -218,10 +218,14 @@ func (dec *Decoder) Decode(v interface{}) (err error) {
 		if n == -1 {
 			return errors.New("stark-curve encoder: unsupported type")
 		}
-		err = binary.Read(dec.r, binary.BigEndian, t)
-		if err == nil {
-			dec.n += int64(n)
+		// read through a buffer so that the bytes consumed by a short read are counted
+		b := make([]byte, n)
+		read, err = io.ReadFull(dec.r, b)
+		dec.n += int64(read)
+		if err != nil {
+			return
 		}
+		_, err = binary.Decode(b, binary.BigEndian, t)
 		return
 	}
 }
